@@ -35,6 +35,7 @@ import HSModel.Proofs.Shape
 import HSModel.Proofs.SerialSpec
 import HSModel.Proofs.SerialTest
 import HSModel.Proofs.StoreSpec
+import HSModel.Props.C09
 namespace HS.C07
 
 /-- a thread running alone from any of its scheduling points computes the
@@ -376,5 +377,26 @@ example : ∀ x ∈ callsSt, StoresPid "p1".toList x := by
   · exact ⟨(by intro h; cases h), fun q h => by rw [hp] at h; cases h; rfl⟩
   · exact ⟨(by intro h; cases h), fun q h => by rw [hp] at h; cases h; rfl⟩
   · exact ⟨(by intro h; cases h), fun q h => by rw [hb] at h; cases h⟩
+
+/-! ### what every interleaving guarantees even inside the known windows -/
+
+/-- **No reader is ever served wrong bytes, whatever races.** Any number of threads running any
+    calls (the races K1, K2, K5 included), every schedule, every granularity, any fault plan: a
+    `retrieve_object` that returns normally returns content whose digest (up to deletion-marker
+    suffixes, which no digest carries) is a cid that was in some pid reference at the start or
+    that a `store_object` / `tag_object` of the set supplied; and at every step every object in
+    the directory sits at the address of its own digest. The known races therefore end in a
+    not-found / inconsistency error for the affected pid, never in foreign or partial content. -/
+theorem no_reader_gets_wrong_bytes (cfg : Config) (o : Oracle) (calls : List Call) (w0 : World)
+    (vs0 : List Str) (ts0 : List Tok) (hv : C09.ValuesFrom vs0 ts0 w0.st) (hob : C09.ObjsAddressed cfg o w0.st)
+    (fuel : Nat) (sched : List Nat) (n : Nat) :
+    let cf := (runSchedule fuel { w := w0, ts := calls.map (fun c => TState.fresh (c.prog cfg o)) } sched n).1
+    C09.ObjsAddressed cfg o cf.w.st ∧
+    ∀ (i : Nat) (r : Except Exc Val) (pid : SArg), cf.ts[i]? = some (.finished r) →
+      calls[i]? = some (.retrieveObject pid) → ∀ t, r = .ok (.content t) →
+        ∃ c ∈ vs0 ++ calls.flatMap (C09.cidsSupplied cfg o), ∃ k, c = o.dig cfg.alg t ++ C09.markers k := by
+  intro cf
+  have h := C09.whole_under_every_interleaving cfg o calls w0 vs0 ts0 hv hob fuel sched n
+  exact ⟨h.2.1, fun i r pid hi hc => (h.2.2 i r hi).2 pid hc⟩
 
 end HS.C07
